@@ -171,6 +171,7 @@ type vCluster struct {
 	vsig    string
 	steps   []vM
 	commitd []vEnt // longest prefix ever committed
+	hwBefore int64
 }
 
 func (c *vCluster) violation(sig, what string) {
@@ -305,6 +306,13 @@ func (c *vCluster) observe(step vM) {
 			break
 		}
 	}
+	// the leader's HW never covers a message an in-sync replica does not hold
+	for _, m := range c.isr {
+		if h := c.hwOf(c.leader); int(h) >= len(c.logOf(m)) && h > c.hwBefore {
+			c.violation("committed-without-isr-member", fmt.Sprintf("leader %s moved its high watermark to %d while in-sync replica %s holds only %d messages", c.leader, h, m, len(c.logOf(m))))
+		}
+	}
+	c.hwBefore = c.hwOf(c.leader)
 	names := []string{"a", "b", "c"}
 	for i := 0; i < 3; i++ {
 		for j := i + 1; j < 3; j++ {
@@ -353,7 +361,7 @@ func TestVerifC02(t *testing.T) {
 				t.Fatal(err)
 			}
 			c := &vCluster{v: v, sims: map[string]*vSimLeader{}, logs: map[string][]vEnt{}, hws: map[string]int64{"b": -1, "c": -1},
-				leader: "a", isr: []string{"a", "b", "c"}, view: map[string]int64{}, synced: map[string]bool{"a": true, "b": true, "c": true}, minISR: minISR}
+				leader: "a", hwBefore: -1, isr: []string{"a", "b", "c"}, view: map[string]int64{}, synced: map[string]bool{"a": true, "b": true, "c": true}, minISR: minISR}
 			_, c.epoch = v.p.GetLeader()
 			for _, nme := range []string{"b", "c"} {
 				c.sims[nme] = vNewSimLeader(v, nme)
